@@ -1605,7 +1605,7 @@ def a12 : Arith Rex := ⟨⟨⟨3⟩, ⟨0⟩⟩, ⟨⟨5⟩, ⟨0⟩⟩, 2⟩
 theorem a12_reachable : a12 = Arith.fromList [inj 1, inj 2] := by
   simp only [a12, Arith.fromList, Arith.extend, List.foldl_cons, List.foldl_nil, Arith.append,
     Arith.empty, Kahan.empty, Kahan.new, Kahan.add, Arith.mk.injEq, Kahan.mk.injEq]
-  refine ⟨⟨?_, ?_⟩, ⟨?_, ?_⟩, rfl⟩ <;> apply RR.ext' <;> simp <;> norm_num
+  refine ⟨⟨?_, ?_⟩, ⟨?_, ?_⟩, trivial⟩ <;> apply RR.ext' <;> simp <;> norm_num
 
 theorem a12_mean : a12.mean.val = 3 / 2 := by
   simp [a12, Arith.mean, Kahan.value]
